@@ -252,6 +252,12 @@ class BodyAn:
                     e = ("upvar", p["n"])
                 else:
                     e = mk_field(e, p["adt"], p["n"])
+                    if e[0] == "field" and e[1][0] == "call" and self.prog is not None:
+                        # a field of a freshly constructed value (`..Progress::new(a, b)`, `T::new(x).f`): what the
+                        # constructor stores there, over the call's arguments
+                        r = self.prog.field_of_call(e[1], p["adt"], p["n"])
+                        if r is not None:
+                            e = r
             elif isinstance(p, dict) and "downcast" in p:
                 pass  # the following field projection carries the variant
             elif isinstance(p, dict) and "index" in p:
